@@ -67,6 +67,10 @@ func (ta *authenticator) Init(jsonconf json.RawMessage, name string) error {
 	if config.ExpireIn <= 0 {
 		return errors.New("auth_token: invalid expiration value")
 	}
+	if config.SerialNum < 0 || config.SerialNum > 0xFFFF {
+		// The serial number is stored in the token as uint16.
+		return errors.New("auth_token: serial number out of range")
+	}
 
 	ta.name = name
 	ta.hmacSalt = config.Key
